@@ -191,8 +191,14 @@ class Transmission(WithObservers, LoggingTrait):
             and len(user_data) >= 5
         ):
             # print(f"udp/ipv4 compressed {user_data.hex()}")
-            udp_ip = UDPIPv4CompressedHeader.from_bits(bits=bytes_to_bits(user_data))
-            print(repr(udp_ip))
+            try:
+                udp_ip = UDPIPv4CompressedHeader.from_bits(
+                    bits=bytes_to_bits(user_data)
+                )
+                print(repr(udp_ip))
+            except AssertionError:
+                # user data too short for the extended headers it announces, must not break the tracker
+                self.log_warning("UDP/IPv4 compressed header could not be parsed")
 
         # print("\n" * 3)
 
